@@ -19,7 +19,7 @@ Open Scope N_scope.
 Theorem c02_binding : forall expand kc l st now lim q u c,
   s_keys st = Seal.inject_all kc (Seal.sealed_init kc) l ->
   certgen expand st now lim q = Issued u c ->
-  (exists level, proves now q u level) /\
+  (exists level, proves st now q u level) /\
   d_names c = [s_name st u] /\ q_target q = s_name st u /\
   (exists ed, q_key q = Some (d_key c, ed)) /\
   d_user_type c = true /\ d_is_ca c = false /\
@@ -46,7 +46,7 @@ Print Assumptions c02_published_for_every_initial_list.
 
 (* a request made on behalf of any other name is refused (403 when it would otherwise qualify) *)
 Theorem c02_other_user_refused : forall expand st now lim q u level iat,
-  check_auth now lim bAny (auth_request q) = Admit u level iat ->
+  check_auth now lim bAny (auth_request st q) = Admit u level iat ->
   s_name st u <> q_target q ->
   (exists code, certgen expand st now lim q = Refused code /\ 400 <= code) /\
   (s_sealed st = false -> qualifies (s_cfg st) level -> certgen expand st now lim q = Refused 403).
@@ -62,6 +62,37 @@ Theorem c02_extensions : forall expand st now lim q u c,
   NoDup (map fst (d_exts c)).
 Proof. exact extensions. Qed.
 Print Assumptions c02_extensions.
+
+(* ... and an SSH certificate exists only if EVERY configured template - name and value - expands for
+   this user; a template the expander rejects (for everybody or for this name only) is never skipped:
+   nothing is issued *)
+Theorem c02_failed_expansion_refused : forall expand st now lim q u c,
+  certgen expand st now lim q = Issued u c -> d_ssh c = true ->
+  forall k v, In (k, v) (s_templates st) ->
+    expand k (s_name st u) <> None /\ expand v (s_name st u) <> None.
+Proof. exact failed_expansion_refused. Qed.
+Print Assumptions c02_failed_expansion_refused.
+
+(* no two distinct authenticated users ever receive the same certified name (SSH principals / X.509
+   common name), across servers, requests, certificate and key types: the name goes into the
+   certificate byte for byte - not cut, not folded, not normalised *)
+Theorem c02_names_injective : forall expand st1 now1 lim1 q1 u1 c1 st2 now2 lim2 q2 u2 c2,
+  certgen expand st1 now1 lim1 q1 = Issued u1 c1 ->
+  certgen expand st2 now2 lim2 q2 = Issued u2 c2 ->
+  d_names c1 = d_names c2 -> s_name st1 u1 = s_name st2 u2.
+Proof. exact names_injective. Qed.
+Print Assumptions c02_names_injective.
+
+(* the authenticated user's name is the ONLY identity the certificate carries: no further principal or
+   critical option (SSH); no DNS, e-mail, URI, address, directory or other-name entry in the subject
+   alternative name, no further subject attribute, no second common name (X.509); the PKINIT name, when
+   a realm is configured, is the same user in that realm *)
+Theorem c02_no_other_names : forall expand st now lim q u c,
+  certgen expand st now lim q = Issued u c ->
+  d_other_names c = [] /\ d_names c = [s_name st u] /\
+  match d_krb c with Some (r, p) => s_realm st = Some r /\ p = s_name st u | None => True end.
+Proof. exact no_other_names. Qed.
+Print Assumptions c02_no_other_names.
 
 (* the credential minted for a submitted name is for its normalisation (reprocessUsername);
    the endpoint compares the raw URL segment with it and writes it into the certificate *)
@@ -109,7 +140,7 @@ Example c02_published_example :
   let r := {| Seal.i_tls := true; Seal.i_chain := true; Seal.i_field := Some key_pass |} in
   let ks := Seal.inject_all kc (Seal.sealed_init kc) [r] in
   Seal.pubkeys ks = [9; 1; 9; 1; 2] /\ Seal.ca_ders ks = [2; 1] /\
-  match certgen no_expand {| s_keys := ks; s_cfg := [sU2F]; s_name := case_name; s_host := []; s_templates := [];
+  match certgen no_expand {| s_keys := ks; s_cfg := [sU2F]; s_name := case_name; s_host := case_host; s_addr := s_port443; s_templates := [];
                              s_realm := None; s_groups := fun _ => Some []; s_methods := fun _ => Some [] |}
                 0%Z true (case_req (nth 8 shapes default_shape) 4 0) with
   | Issued u d => d_signer d = 2 /\ u = 1
